@@ -389,6 +389,7 @@ class Registry:
         raise OutOfSubset(f"call of unknown function {n} at line {getattr(node, 'lineno', '?')}")
 
     code_visible_specfuns = set()
+    upcasts = {}   # (record type, opaque interface type) -> z3 function: a record viewed as an object of the abstract interface it implements
 
     def instantiate(self, eng, cls, init, args, kwargs, st, node):
         """ClassName(args): a fresh record initialised by the contract of __init__."""
@@ -845,6 +846,11 @@ class Registry:
                     if not eng.spec:
                         eng.oblige(st, znot(a_.x[0]), "pre@call", f"pre@call[{c.key}@{lineno}:{n} is not None]", lineno)
                     a_ = a_.x[1]
+                up_ = self.upcasts.get((a_.t[1], c.params[n][1])) if (a_.t[0] in ("bag", "set") and c.params[n][0] in ("bag", "set")) else None
+                if up_ is not None and getattr(eng, "qdepth", 0) == 0:
+                    # a collection of records passed where the contract speaks about (opaque) interface objects: the image under the registered injection
+                    h_, r_ = z3.Const(fresh_name("h"), sort_of(c.params[n][1])), z3.Const(fresh_name("r"), sort_of(a_.t[1]))
+                    a_ = V(c.params[n], eng.mkset(st, [h_], z3.Exists([r_], z3.And(z3.Select(a_.x, r_), h_ == up_(r_)))))
                 cs.vars[n] = coerce(a_, c.params[n]) if c.params[n][0] != "closure" and c.params[n] != ("opaque", "Any") else a_
             except TypeError as e:
                 raise BindMismatch(f"{c.key}: argument {n}: {e} (line {lineno})")
@@ -868,6 +874,17 @@ class Registry:
             if not eng.spec and getattr(eng, "qdepth", 0) == 0:
                 for e, t in eng.spec_conj(c.requires, cs):
                     eng.oblige(st, t, "pre@call", f"pre@call[{c.key}@{lineno}:{e[:40]}]", lineno)
+            if c.raises and c.pure and not eng.spec and getattr(eng, "qdepth", 0) == 0:
+                # a pure callee that may raise, called from executed code: fork the exceptional outcomes exactly as for any other call; on the
+                # normal continuation the result is the function application (whose axiom is guarded by 'no raises-condition holds')
+                for exc, cond in c.raises:
+                    t = zand(*[t_ for _, t_ in eng.spec_conj([cond], cs)])
+                    s_r = st.fork()
+                    s_r.assume(t)
+                    if feasible(s_r):
+                        eng.do_raise(s_r, exc, lineno)
+                    st.assume(znot(t))
+                return [(st, self.pure_fn_app(eng, c, cs, lineno, raises_handled=True))]
             return [(st, self.pure_fn_app(eng, c, cs, lineno))]
         saved_res = eng.result
         saved_bound = eng.bound
@@ -964,11 +981,11 @@ class Registry:
             eng.result = saved_res
             eng.bound = saved_bound
 
-    def pure_fn_app(self, eng, c, cs, lineno):
+    def pure_fn_app(self, eng, c, cs, lineno, raises_handled=False):
         scalar = ("bool", "str", "int", "node", "data", "bag", "set", "obj")   # obj: a freshly built record, denoted by its snapshot term (vals.obj_sort)
         is_opt = c.returns is not None and c.returns[0] == "opt" and c.returns[1][0] in scalar
         in_comp = (not eng.spec) and bool(getattr(eng, "_comp_ctx", None))
-        if c.modifies or (c.raises and not (in_comp or eng.spec)) or c.returns is None or not (c.returns[0] in scalar or is_opt):
+        if c.modifies or (c.raises and not (in_comp or eng.spec or raises_handled)) or c.returns is None or not (c.returns[0] in scalar or is_opt):
             raise OutOfSubset(f"call of {c.key} under a binder: needs a 'defn' contract or a pure total contract with a scalar result")
         if c.raises and in_comp:
             # (in a specification the application just denotes the function; its axiom is guarded by 'no raises-condition holds')
